@@ -370,7 +370,15 @@ def install_normalize_monitor(rec, am):
 # --------------------------------------------------------------------------- workload
 
 def build_system(am, case, cell_style):
-    atoms = am.Atoms(atype=case['atype'].copy(), pos=case['pos'].copy(), **{k: v.copy() for k, v in case['extras'].items()})
+    pos = case['pos'].copy()
+    pf = case.get('posform', 'float')
+    if pf == 'int64':
+        pos = pos.astype(np.int64)
+    elif pf == 'int32':
+        pos = pos.astype(np.int32)
+    elif pf == 'intlist':
+        pos = [[int(x) for x in row] for row in pos]
+    atoms = am.Atoms(atype=case['atype'].copy(), pos=pos, **{k: v.copy() for k, v in case['extras'].items()})
     v, o = case['vects'], case['origin']
     if cell_style == 'vects':
         box = am.Box(vects=v.copy(), origin=o.copy())
@@ -612,6 +620,7 @@ def run(ctx):
         if i < 24:
             rec.sample(dict(classes=c, vects=case['vects'], origin=case['origin'], rel=rel[:4], tags=case['tags'][:4]))
         rec.count('wrap:pbc-' + ''.join('1' if p else '0' for p in c['pbc']))
+        rec.count('wrap:posform-' + case['posform'])
         rec.count('wrap:hand-' + ('left' if c['hand'] != 'right' else 'right'))
         rec.count('wrap:kind-' + c['kind'])
         rec.count('wrap:scale-' + S.scale_name(c['scale']))
@@ -741,6 +750,8 @@ def run(ctx):
     rec.floor('wrap:cases-with-hairline-atoms', 50)
     rec.floor('wrap:cases-with-far-atoms', 100)
     rec.floor('wrap:hand-left', 200)
+    for pf in ('int64', 'int32', 'intlist'):
+        rec.floor('wrap:posform-' + pf, 10)
     rec.floor('wrap:kind-tilted', 50)
     rec.floor('wrap:kind-rotated', 50)
     for p in S.cells.PBCS:
